@@ -61,6 +61,7 @@ func runSweep(repo *Repo, opt *checkOpts, update bool) sweepOutcome {
 	}
 	defer os.RemoveAll(outDir)
 	pl := newPool(outDir, runtime.NumCPU(), false, 4*time.Second)
+	pl.retry = func(o Obligation) bool { return baseline[strings.TrimPrefix(o.Clause, "sweep:")] || baseline[o.Clause] } // only a recorded clause can regress
 	genFailed := 0
 	nFuncs := 0
 	for _, k := range keys {
